@@ -294,7 +294,7 @@ func checkRename(c *core.Ctx, funcs []*ssa.Function, fn *ssa.Function, rename *s
 				if *op == nil {
 					continue
 				}
-				if _, isIface := (*op).Type().Underlying().(*types.Interface); !isIface && !isOSFile((*op).Type()) {
+				if _, isIface := (*op).Type().Underlying().(*types.Interface); !isIface && !isOSFile((*op).Type()) && !isBufferedWriter((*op).Type()) {
 					continue
 				}
 				for x := range core.BackSlice(*op) {
@@ -366,6 +366,15 @@ func hasErrResult(call *ssa.Call) bool {
 		if core.IsErrorType(res.At(i).Type()) {
 			return true
 		}
+	}
+	return false
+}
+
+// isBufferedWriter: a writer that wraps the temp file; the bytes only reach the file when its Flush succeeds.
+func isBufferedWriter(t types.Type) bool {
+	switch core.NamedTypePkgName(t) {
+	case "bufio.Writer", "bufio.ReadWriter":
+		return true
 	}
 	return false
 }
